@@ -16,11 +16,14 @@ Inductive hcmd :=
 | HFlatten                                               (* flatten() *)
 | HSetReg (key v : Z)                                    (* DurationRegistry.set_registry_at *)
 | HGlobal (ro mw fl rs : Z)                              (* enter a temporary global-duration override *)
+| HUnglobal                                              (* leave the innermost override *)
 | HObsListing | HObsDuration                             (* observations the model answers *)
 | HObsOther.                                             (* acquisition indices / Stim text / copy / plot: judged by spec_ok only *)
 
 Record hstate := { hs_nodes : option (list node);       (* None: outside the model (flatten returned None) *)
-                   hs_glob : Z * Z * Z * Z; hs_reg : list (Z * Z) }.
+                   hs_glob : Z * Z * Z * Z;             (* settings in force *)
+                   hs_outer : list (Z * Z * Z * Z);     (* settings of the enclosing overrides, innermost first *)
+                   hs_reg : list (Z * Z) }.
 Definition hs_env (s : hstate) : denv :=
   let '(ro, mw, fl, rs) := hs_glob s in mk_env ro mw fl rs (hs_reg s).
 
@@ -38,7 +41,8 @@ Fixpoint replace_nth {A} (n : nat) (l : list A) (x : A) : list A :=
   end.
 
 Definition with_nodes (s : hstate) (f : list node -> option (list node)) : hstate :=
-  {| hs_nodes := match hs_nodes s with Some ns => f ns | None => None end; hs_glob := hs_glob s; hs_reg := hs_reg s |}.
+  {| hs_nodes := match hs_nodes s with Some ns => f ns | None => None end; hs_glob := hs_glob s; hs_outer := hs_outer s;
+     hs_reg := hs_reg s |}.
 
 Definition hstep (s : hstate) (c : hcmd) : hstate :=
   let env := hs_env s in
@@ -54,8 +58,13 @@ Definition hstep (s : hstate) (c : hcmd) : hstate :=
                                          end)
   | HMods => with_nodes s (fun ns => Some (apply_modifiers env 1 ns))
   | HFlatten => with_nodes s (fun ns => flatten env ns)
-  | HSetReg k v => {| hs_nodes := hs_nodes s; hs_glob := hs_glob s; hs_reg := set_reg (hs_reg s) k v |}
-  | HGlobal ro mw fl rs => {| hs_nodes := hs_nodes s; hs_glob := (ro, mw, fl, rs); hs_reg := hs_reg s |}
+  | HSetReg k v => {| hs_nodes := hs_nodes s; hs_glob := hs_glob s; hs_outer := hs_outer s; hs_reg := set_reg (hs_reg s) k v |}
+  | HGlobal ro mw fl rs => {| hs_nodes := hs_nodes s; hs_glob := (ro, mw, fl, rs); hs_outer := hs_glob s :: hs_outer s;
+                              hs_reg := hs_reg s |}
+  | HUnglobal => match hs_outer s with
+                 | [] => s
+                 | g :: t => {| hs_nodes := hs_nodes s; hs_glob := g; hs_outer := t; hs_reg := hs_reg s |}
+                 end
   | HObsListing | HObsDuration | HObsOther => s
   end.
 
